@@ -1116,7 +1116,7 @@ func TestPropCallsArity2(t *testing.T) {
 	if err := loadCallees(); err != nil {
 		t.Fatalf("cannot list callees: %v", err)
 	}
-	vk.S.SetExhaustive("every-callee-x-every-ordered-pair-of-pool-values", vk.Thorough())
+	vk.S.SetExhaustive("every-operator-callee-x-every-ordered-pair-of-pool-values", vk.Thorough())
 	vk.Enum(t, subCase, func(yield func(Request) bool) {
 		i := 0
 		for _, c := range calleeNames {
@@ -1128,7 +1128,12 @@ func TestPropCallsArity2(t *testing.T) {
 					}
 					// quick: a seeded 1/300 slice of the pairs; for the operator callees every pair of the core pool
 					// (boundary scalars and one value of each container kind) and 1/64 of the other pairs
-					if !vk.Thorough() {
+					if vk.Thorough() {
+						// thorough: every pair for the operator callees, a seeded third of the pairs for the ~300 built-ins and methods
+						if !strings.HasPrefix(c, "op:") && (i/2+vk.Seed()*7)%3 != 0 {
+							continue
+						}
+					} else {
 						every := 300
 						if strings.HasPrefix(c, "op:") {
 							every = 64
